@@ -294,6 +294,12 @@ def gen_rust(shapes, with_setters=False):
         arms.append(f'        {i} => run::<{inst}>(op, args),')
     out.append('pub fn run_shape(id: usize, op: &str, args: &[Sx]) -> Sx {\n    match id {\n' + '\n'.join(arms) +
                '\n        _ => tag("bad-shape", vec![]),\n    }\n}\n')
+    warms = []
+    for i, sh in enumerate(shapes):
+        inst = f'{sh["name"]}<u32>' if sh.get('generic') else sh['name']
+        warms.append(f'        {i} => crate::h_wire::wire::<{inst}>(args),')
+    out.append('pub fn wire_shape(id: usize, args: &[Sx]) -> Sx {\n    match id {\n' + '\n'.join(warms) +
+               '\n        _ => tag("bad-shape", vec![]),\n    }\n}\n')
     # setters (only compiled with the generated_setters feature)
     sarms = []
     for i, sh in enumerate(shapes):
